@@ -390,7 +390,8 @@ def accumulators(ctx, rule):
         return False
 
     from rules.common import loop_passes
-    ctx.check(loop_passes(body, after_parse_ok(body), hi, [lb]), rule, fn, "segment:no-skip",
+    tok_pushes = [bi for bi, t in q.calls_to(body, "Vec::<T, A>::push") if q.shape(q.arg_expr(body, t, 1), roles).startswith("RawToken{")]
+    ctx.check(len(tok_pushes) == 1 and loop_passes(body, after_parse_ok(body), hi, tok_pushes), rule, fn, "segment:no-skip",
               "every non-empty segment that parses produces exactly one token (none is skipped; rejected ones leave the function)")
     reset_in_loop = set()
     for k, f in enumerate(V3_FIELDS):
